@@ -451,10 +451,10 @@ Ltac inv_con := constructor; unfold total_pages in *.
 
 Ltac conj_split := repeat match goal with |- _ /\ _ => split end.
 
-Ltac fcbn := cbn [f_active f_contacted f_running f_on f_yielded f_blob f_pages f_disc f_sched f_seeds fst snd
-                    schedule set_active set_on_running set_paging set_blob].
-Ltac fcbn_in H := cbn [f_active f_contacted f_running f_on f_yielded f_blob f_pages f_disc f_sched f_seeds fst snd
-                    schedule set_active set_on_running set_paging set_blob] in H.
+Ltac fcbn := cbn [f_active f_contacted f_running f_on f_yielded f_blob f_pages f_disc f_sched f_seeds f_task f_pending fst snd
+                    schedule set_active set_on_running set_paging set_blob set_tasks].
+Ltac fcbn_in H := cbn [f_active f_contacted f_running f_on f_yielded f_blob f_pages f_disc f_sched f_seeds f_task f_pending fst snd
+                    schedule set_active set_on_running set_paging set_blob set_tasks] in H.
 
 Section FinderInv.
   Variable prm : fparams.
@@ -631,14 +631,33 @@ Section FinderInv.
         * pose proof (addN_length_ub (pid p) (f_running st)). lia.
   Qed.
 
+
+  Lemma finv_set_tasks st U t pd : finv st U -> finv (set_tasks st t pd) U.
+  Proof. intros [a b d e f g h i]. unfold set_tasks, total_pages in *. inv_con; fcbn; auto. Qed.
+
+  Lemma done_state_fields st p tid :
+    let s1 := done_state prm st p tid in
+    f_active s1 = f_active st /\ f_contacted s1 = f_contacted st /\ f_on s1 = f_on st /\ f_yielded s1 = f_yielded st /\
+    f_pages s1 = f_pages st /\ f_seeds s1 = f_seeds st /\ f_sched s1 = f_sched st /\ f_blob s1 = f_blob st /\
+    f_pending s1 = f_pending st /\ length (f_running s1) <= length (f_running st).
+  Proof.
+    unfold done_state. cbv zeta. destruct (_ || _); cbn; conj_split; auto. apply removeN_length_le.
+  Qed.
+
+  Lemma finv_done_state st U p tid : finv st U -> finv (done_state prm st p tid) U.
+  Proof.
+    intro H. unfold done_state. cbv zeta. destruct (_ || _); auto.
+    apply finv_set_tasks. apply finv_set_on_running; auto. apply removeN_length_le.
+  Qed.
+
   Theorem fstep_inv st ev st' outs tag U :
-    fstep prm st ev = (st', outs, tag) -> finv st U -> finv st' (U ++ mentioned_ev ev).
+    fstep_core prm st ev = (st', outs, tag) -> finv st U -> finv st' (U ++ mentioned_ev ev).
   Proof.
     intros H Hinv.
     assert (HU : incl U (U ++ mentioned_ev ev)) by (apply incl_appl, incl_refl).
     assert (HM : incl (mentioned_ev ev) (U ++ mentioned_ev ev)) by (apply incl_appr, incl_refl).
     pose proof (finv_mono _ _ _ HU Hinv) as Hinv'.
-    destruct ev; cbn [fstep] in H.
+    destruct ev; cbn [fstep_core] in H.
     - (* EInit *)
       match type of H with (let '(_, _) := ?f in _) = _ => destruct f as [s1 o1] eqn:Ef end.
       inversion H; subst; clear H. eapply seeds_fold; eauto.
@@ -646,15 +665,14 @@ Section FinderInv.
       destruct (search_round prm _ good) as [s1 o1] eqn:Es. inversion H; subst; clear H.
       eapply search_round_inv in Es; [apply Es|]. apply finv_set_on_running; auto.
     - (* EDone *)
-      assert (Hs : finv (set_on_running st (f_on st) (removeN p (f_running st))) (U ++ mentioned_ev (EDone p good))).
-      { apply finv_set_on_running; auto. apply removeN_length_le. }
+      assert (Hs : finv (done_state prm st p tid) (U ++ mentioned_ev (EDone p tid good))) by (now apply finv_done_state).
       destruct (f_on st).
       + destruct (search_round prm _ good) as [s1 o1] eqn:Es. inversion H; subst; clear H.
         eapply search_round_inv in Es; [apply Es|]. exact Hs.
       + inversion H; subst; auto.
     - inversion H; subst. now apply finv_reset.
     - inversion H; subst. auto.
-    - unfold aclose in H. inversion H; subst. apply finv_set_on_running; auto. simpl. lia.
+    - unfold aclose in H. inversion H; subst. apply finv_set_tasks. apply finv_set_on_running; auto. simpl. lia.
     - (* ENodeReply *)
       assert (Hs : finv (add_contacts (add_active st p false selfbad) contacts)
                         (U ++ mentioned_ev (ENodeReply p selfbad contacts checked found_key good))).
@@ -703,7 +721,7 @@ Section FinderInv.
         destruct (negb (is_nil items)); [|inversion H; subst; auto].
         destruct (yield_new eqc _ items) as [seen fresh]. inversion H; subst; clear H.
         destruct H2 as [a b d e f g h i]. unfold set_blob, total_pages in *. inv_con; fcbn; auto.
-    - unfold aclose in H. inversion H; subst. apply finv_set_on_running; auto. simpl. lia.
+    - unfold aclose in H. inversion H; subst. apply finv_set_tasks. apply finv_set_on_running; auto. simpl. lia.
   Qed.
 
   Definition seeds_ev (ev : fev) : nat :=
@@ -729,26 +747,27 @@ Section FinderInv.
   Qed.
 
   Theorem fstep_aux st ev st' outs tag U :
-    fstep prm st ev = (st', outs, tag) -> finv st U ->
+    fstep_core prm st ev = (st', outs, tag) -> finv st U ->
     f_seeds st' = f_seeds st + seeds_ev ev /\
     (is_vreply ev = false -> f_pages st' = f_pages st /\ (forall x, In x (f_contacted st) -> In x (f_contacted st'))).
   Proof.
-    intros H Hinv. destruct ev; cbn [fstep] in H; cbn [seeds_ev is_vreply].
+    intros H Hinv. destruct ev; cbn [fstep_core] in H; cbn [seeds_ev is_vreply].
     - match type of H with (let '(_, _) := ?f in _) = _ => destruct f as [s1 o1] eqn:Ef end.
       inversion H; subst; clear H. apply seeds_fold_fields in Ef. destruct Ef as (E1 & E2 & E3). auto.
     - destruct (search_round prm _ good) as [s1 o1] eqn:Es. inversion H; subst; clear H.
       eapply search_round_inv in Es; [|apply finv_set_on_running; [|exact Hinv]; auto].
       destruct Es as (_ & _ & _ & _ & E5 & E6 & E7). fcbn_in E5. fcbn_in E6. fcbn_in E7.
       split; [lia|]. auto.
-    - destruct (f_on st).
+    - destruct (done_state_fields st p tid) as (D1 & D2 & D3 & D4 & D5 & D6 & _). cbv zeta in *.
+      destruct (f_on st).
       + destruct (search_round prm _ good) as [s1 o1] eqn:Es. inversion H; subst; clear H.
-        eapply search_round_inv in Es; [|apply finv_set_on_running; [|exact Hinv]; apply removeN_length_le].
-        destruct Es as (_ & _ & _ & _ & E5 & E6 & E7). fcbn_in E5. fcbn_in E6. fcbn_in E7.
+        eapply search_round_inv in Es; [|apply finv_done_state; exact Hinv].
+        destruct Es as (_ & _ & _ & _ & E5 & E6 & E7). rewrite D2 in E5. rewrite D5 in E6. rewrite D6 in E7.
         split; [lia|]. auto.
-      + inversion H; subst. fcbn. split; [lia|]. auto.
+      + inversion H; subst. rewrite D6, D5, D2. split; [lia|]. auto.
     - inversion H; subst. unfold reset_closest. fcbn. split; [lia|]. auto.
     - inversion H; subst. split; [lia|]. auto.
-    - unfold aclose in H. inversion H; subst. fcbn. split; [lia|]. auto.
+    - unfold aclose in H. inversion H; subst. unfold set_tasks. fcbn. split; [lia|]. auto.
     - destruct (add_contacts_fields contacts (add_active st p false selfbad))
         as (G1 & G2 & G3 & G4 & G5 & G6 & G7 & G8 & G9 & _).
       destruct (add_active_fields st p false selfbad) as (A1 & A2 & A3 & A4 & A5 & A6 & A7 & A8 & A9 & _).
@@ -782,7 +801,41 @@ Section FinderInv.
       + destruct checked; [|inversion H; subst; lia].
         destruct (negb (is_nil items)) eqn:En; [|inversion H; subst; lia].
         destruct (yield_new eqc _ items) as [seen fresh]. inversion H; subst; clear H. fcbn. lia.
-    - unfold aclose in H. inversion H; subst. fcbn. split; [lia|]. auto.
+    - unfold aclose in H. inversion H; subst. unfold set_tasks. fcbn. split; [lia|]. auto.
+  Qed.
+
+  Lemma fstep_unfold st ev st' outs tag :
+    fstep prm st ev = (st', outs, tag) ->
+    exists s1, fstep_core prm st ev = (s1, outs, tag) /\ st' = settle_pending s1 ev.
+  Proof.
+    unfold fstep. destruct (fstep_core prm st ev) as [[s1 o1] t1]. intro H. inversion H; subst. eauto.
+  Qed.
+
+  Lemma settle_fields st ev :
+    let s := settle_pending st ev in
+    f_active s = f_active st /\ f_contacted s = f_contacted st /\ f_running s = f_running st /\ f_on s = f_on st /\
+    f_yielded s = f_yielded st /\ f_pages s = f_pages st /\ f_seeds s = f_seeds st /\ f_sched s = f_sched st /\
+    f_blob s = f_blob st /\ f_task s = f_task st.
+  Proof. destruct ev; cbn; conj_split; auto. Qed.
+
+  Lemma finv_settle st ev U : finv st U -> finv (settle_pending st ev) U.
+  Proof. destruct ev; cbn [settle_pending]; auto; apply finv_set_tasks. Qed.
+
+  Theorem fstep_inv' st ev st' outs tag U :
+    fstep prm st ev = (st', outs, tag) -> finv st U -> finv st' (U ++ mentioned_ev ev).
+  Proof.
+    intros H Hinv. apply fstep_unfold in H. destruct H as (s1 & H & ->).
+    apply finv_settle. eapply fstep_inv; eauto.
+  Qed.
+
+  Theorem fstep_aux' st ev st' outs tag U :
+    fstep prm st ev = (st', outs, tag) -> finv st U ->
+    f_seeds st' = f_seeds st + seeds_ev ev /\
+    (is_vreply ev = false -> f_pages st' = f_pages st /\ (forall x, In x (f_contacted st) -> In x (f_contacted st'))).
+  Proof.
+    intros H Hinv. apply fstep_unfold in H. destruct H as (s1 & H & ->).
+    destruct (settle_fields s1 ev) as (_ & S2 & _ & _ & _ & S6 & S7 & _). cbv zeta in *.
+    rewrite S2, S6, S7. eapply fstep_aux; eauto.
   Qed.
 End FinderInv.
 
@@ -805,8 +858,8 @@ Proof.
   induction evs as [|e evs IH]; intros st U Hinv; cbn [frun mentioned flat_map seeds_of fold_right forallb].
   - rewrite app_nil_r. conj_split; auto.
   - destruct (fstep prm st e) as [[st1 o1] t1] eqn:Es.
-    pose proof (fstep_inv prm c Hcap _ _ _ _ _ _ Es Hinv) as H1.
-    pose proof (fstep_aux prm c _ _ _ _ _ _ Es Hinv) as (H2 & H3).
+    pose proof (fstep_inv' prm c Hcap _ _ _ _ _ _ Es Hinv) as H1.
+    pose proof (fstep_aux' prm c _ _ _ _ _ _ Es Hinv) as (H2 & H3).
     specialize (IH st1 _ H1). destruct (frun prm st1 evs) as [stf rest] eqn:Er. cbn [fst] in *.
     destruct IH as (I1 & I2 & I3). fold (mentioned evs) in *. fold (seeds_of evs) in *.
     conj_split.
@@ -887,25 +940,28 @@ Theorem contacted_monotone prm c evs ev st' outs tag : fp_cap prm = Some c -> is
   forall x, In x (f_contacted (final_state prm evs)) -> In x (f_contacted st').
 Proof.
   intros Hcap Hv Hs. pose proof (reachable_inv prm c evs Hcap) as Hinv.
-  destruct (fstep_aux prm c _ _ _ _ _ _ Hs Hinv) as (_ & H). destruct (H Hv). auto.
+  destruct (fstep_aux' prm c _ _ _ _ _ _ Hs Hinv) as (_ & H). destruct (H Hv). auto.
 Qed.
 
 (* after every search round either a probe is still running or the finish marker has been queued *)
 Theorem round_progress prm c evs ev st' outs tag : fp_cap prm = Some c ->
-  (exists good, ev = EStart good) \/ (exists p good, ev = EDone p good /\ f_on (final_state prm evs) = true) ->
+  (exists good, ev = EStart good) \/
+  (exists p tid good, ev = EDone p tid good /\ f_on (final_state prm evs) = true) ->
   fstep prm (final_state prm evs) ev = (st', outs, tag) ->
   f_running st' <> [] \/ In OFinish outs.
 Proof.
   intros Hcap Hev Hs. pose proof (reachable_inv prm c evs Hcap) as Hinv.
+  apply fstep_unfold in Hs. destruct Hs as (s1 & Hs & ->).
+  destruct (settle_fields s1 ev) as (_ & _ & S3 & _). cbv zeta in S3. rewrite S3.
   set (st := final_state prm evs) in *.
-  destruct Hev as [(good & ->)|(p & good & -> & Hon)]; cbn [fstep] in Hs.
-  - destruct (search_round prm _ good) as [s1 o1] eqn:Es. inversion Hs; subst; clear Hs.
+  destruct Hev as [(good & ->)|(p & tid & good & -> & Hon)]; cbn [fstep_core] in Hs.
+  - destruct (search_round prm _ good) as [s2 o1] eqn:Es. inversion Hs; subst; clear Hs.
     eapply search_round_inv in Es; [|apply finv_set_on_running; [|exact Hinv]; auto].
-    destruct Es as (_ & _ & _ & E4 & _). destruct (f_running st') eqn:Er; [right; auto|left; discriminate].
+    destruct Es as (_ & _ & _ & E4 & _). destruct (f_running s1) eqn:Er; [right; auto|left; discriminate].
   - rewrite Hon in Hs.
-    destruct (search_round prm _ good) as [s1 o1] eqn:Es. inversion Hs; subst; clear Hs.
-    eapply search_round_inv in Es; [|apply finv_set_on_running; [|exact Hinv]; apply removeN_length_le].
-    destruct Es as (_ & _ & _ & E4 & _). destruct (f_running st') eqn:Er; [right; auto|left; discriminate].
+    destruct (search_round prm _ good) as [s2 o1] eqn:Es. inversion Hs; subst; clear Hs.
+    eapply search_round_inv in Es; [|apply finv_done_state; exact Hinv].
+    destruct Es as (_ & _ & _ & E4 & _). destruct (f_running s1) eqn:Er; [right; auto|left; discriminate].
 Qed.
 
 (* ---- outputs ---- *)
@@ -987,17 +1043,17 @@ Qed.
 
 Definition good_of (ev : fev) : list N :=
   match ev with
-  | EStart g => g | EDone _ g => g | ENodeReply _ _ _ _ _ g => g | _ => []
+  | EStart g => g | EDone _ _ g => g | ENodeReply _ _ _ _ _ g => g | _ => []
   end.
 
 (* node lookup: whatever is yielded was reported good (= it replied), was not yielded before, and its
    record is not the searching node *)
 Theorem node_yield_valid prm st ev st' outs tag ps x :
-  fstep prm st ev = (st', outs, tag) -> In (OYield ps) outs -> In x ps ->
+  fstep_core prm st ev = (st', outs, tag) -> In (OYield ps) outs -> In x ps ->
   In x (good_of ev) /\ ~ In x (f_yielded st) /\
   exists q, In q (f_active st') /\ pid q = x /\ self_id q = false.
 Proof.
-  intros H Hin Hx. destruct ev; cbn [fstep] in H; cbn [good_of].
+  intros H Hin Hx. destruct ev; cbn [fstep_core] in H; cbn [good_of].
   - match type of H with (let '(_, _) := ?f in _) = _ => destruct f as [s1 o1] eqn:Ef end.
     inversion H; subst; clear H. exfalso. assert (Hgen : forall sl st o0 s1 o1,
       fold_left (fun so p => if has_id p then (add_active (fst so) p true false, snd so)
@@ -1017,8 +1073,10 @@ Proof.
   - destruct (f_on st); [|inversion H; subst; destruct Hin].
     destruct (search_round prm _ good) as [s1 o1] eqn:Es. inversion H; subst; clear H.
     apply search_round_yield in Es. destruct Es as (E1 & E2 & _).
-    destruct (E2 _ _ Hin Hx) as (A1 & A2 & q & A3 & A4 & A5). cbn in A2, A3.
-    conj_split; auto. exists q. rewrite E1. cbn. auto.
+    destruct (E2 _ _ Hin Hx) as (A1 & A2 & q & A3 & A4 & A5).
+    destruct (done_state_fields prm st p tid) as (D1 & _ & _ & D4 & _). cbv zeta in D1, D4.
+    rewrite D4 in A2. rewrite D1 in A3.
+    conj_split; auto. exists q. rewrite E1, D1. auto.
   - inversion H; subst. destruct Hin.
   - inversion H; subst. destruct Hin.
   - unfold aclose in H. inversion H; subst. destruct Hin as [Hin|[]]. discriminate.
@@ -1080,11 +1138,11 @@ Proof.
 Qed.
 
 Theorem value_yield_valid prm st ev st' outs tag cs c :
-  fstep prm st ev = (st', outs, tag) -> In (OVYield cs) outs -> In c cs ->
+  fstep_core prm st ev = (st', outs, tag) -> In (OVYield cs) outs -> In c cs ->
   valid_compact c = true /\
   exists p sb raw pages cts chk, ev = EValueReply p sb raw pages cts chk /\ In (VB c) raw.
 Proof.
-  intros H Hin Hc. destruct ev; cbn [fstep] in H.
+  intros H Hin Hc. destruct ev; cbn [fstep_core] in H.
   - exfalso. match type of H with (let '(_, _) := ?f in _) = _ => destruct f as [s1 o1] eqn:Ef end.
     inversion H; subst; clear H. assert (Hgen : forall sl st o0 s1 o1,
       fold_left (fun so p => if has_id p then (add_active (fst so) p true false, snd so)
@@ -1417,10 +1475,10 @@ Definition pager_reply (j : nat) : fev :=
     (map (fun t => VB (mk_compact (N.of_nat (8 * j + t)))) (seq 0 8)) (j + 2) [] true.
 
 Definition pager_evs (rounds : nat) : list fev :=
-  EInit [pager_peer] :: EStart [] :: flat_map (fun j => [pager_reply j; EDone 1 []]) (seq 0 rounds).
+  EInit [pager_peer] :: EStart [] :: flat_map (fun j => [pager_reply j; EDone 1 j []]) (seq 0 rounds).
 
 Definition prm_value (cap : option nat) : fparams :=
-  {| fp_kind := KValue; fp_key_is_self := false; fp_maxres := 8; fp_cap := cap |}.
+  {| fp_kind := KValue; fp_key_is_self := false; fp_maxres := 8; fp_cap := cap; fp_stalepop := false |}.
 
 (* before fac7223 (no cap) the probe bound of finder_probe_bound fails: one peer, 35 probes > 33 *)
 Lemma uncapped_pager_refuted :
@@ -1504,4 +1562,307 @@ Proof.
   change (sz_bytes 15) with 18. change (sz_bytes 54) with 57. change (sz_bytes 1) with 3. change (sz_bytes 20) with 23.
   change (sz_int 0) with 3. change (sz_int 1) with 3. change (sz_int 2) with 3. change (sz_int 3) with 3.
   nia.
+Qed.
+
+(* ------------------------------------------------------------------------------------------ *)
+(* F. the done-callback and pending probe results                                              *)
+(* ------------------------------------------------------------------------------------------ *)
+Theorem node_yield_valid' prm st ev st' outs tag ps x :
+  fstep prm st ev = (st', outs, tag) -> In (OYield ps) outs -> In x ps ->
+  In x (good_of ev) /\ ~ In x (f_yielded st) /\
+  exists q, In q (f_active st') /\ pid q = x /\ self_id q = false.
+Proof.
+  intros H Hin Hx. apply fstep_unfold in H. destruct H as (s1 & H & ->).
+  destruct (settle_fields s1 ev) as (S1 & _). cbv zeta in S1. rewrite S1. eapply node_yield_valid; eauto.
+Qed.
+
+Theorem value_yield_valid' prm st ev st' outs tag cs c :
+  fstep prm st ev = (st', outs, tag) -> In (OVYield cs) outs -> In c cs ->
+  valid_compact c = true /\
+  exists p sb raw pages cts chk, ev = EValueReply p sb raw pages cts chk /\ In (VB c) raw.
+Proof.
+  intros H Hin Hx. apply fstep_unfold in H. destruct H as (s1 & H & ->). eapply value_yield_valid; eauto.
+Qed.
+
+Lemma assoc_opt_set k v l q : assoc_opt q (assoc_set_nat k v l) = if N.eqb q k then Some v else assoc_opt q l.
+Proof.
+  induction l as [|[k' v'] l IH]; simpl.
+  - rewrite (N.eqb_sym k q). reflexivity.
+  - destruct (N.eqb_spec k' k) as [->|Ne]; simpl.
+    + rewrite (N.eqb_sym k q). destruct (N.eqb_spec q k); auto.
+    + destruct (N.eqb_spec k' q) as [->|Nq].
+      * destruct (N.eqb_spec q k); [congruence|auto].
+      * apply IH.
+Qed.
+
+Lemma assoc_opt_del k l q : assoc_opt q (assoc_del k l) = if N.eqb q k then None else assoc_opt q l.
+Proof.
+  unfold assoc_del. induction l as [|[k' v'] l IH]; simpl.
+  - now destruct (q =? k)%N.
+  - destruct (N.eqb_spec k' k) as [->|Ne]; simpl.
+    + rewrite IH. destruct (N.eqb_spec q k) as [E|Nq]; auto.
+      destruct (N.eqb_spec k q); [congruence|auto].
+    + destruct (N.eqb_spec k' q) as [->|Nq].
+      * destruct (N.eqb_spec q k); [congruence|auto].
+      * apply IH.
+Qed.
+
+Lemma assoc_opt_nil l : (forall q, assoc_opt q l = None) -> l = [].
+Proof.
+  destruct l as [|[k v] l]; auto. intro H. specialize (H k). simpl in H. rewrite N.eqb_refl in H. discriminate.
+Qed.
+
+Lemma removeN_In_iff x y l : In y (removeN x l) <-> In y l /\ y <> x.
+Proof.
+  unfold removeN, remove_set. rewrite filter_In. split; intros (H1 & H2); split; auto.
+  - intros ->. rewrite N.eqb_refl in H2. discriminate.
+  - apply negb_true_iff. apply N.eqb_neq. congruence.
+Qed.
+
+(* every probe whose result is still pending owns its peer's running_probes entry *)
+Definition jinv (st : fstate) : Prop :=
+  forall p tid, assoc_opt p (f_pending st) = Some tid -> assoc_opt p (f_task st) = Some tid /\ In p (f_running st).
+
+Definition same_tasks (a b : fstate) : Prop :=
+  f_task a = f_task b /\ f_pending a = f_pending b /\ f_running a = f_running b.
+
+Lemma jinv_same a b : same_tasks a b -> jinv b -> jinv a.
+Proof. intros (E1 & E2 & E3) H p tid. rewrite E1, E2, E3. apply H. Qed.
+
+Lemma add_active_same st p f b : same_tasks (add_active st p f b) st.
+Proof.
+  unfold add_active, same_tasks. destruct (negb f && b); auto.
+  destruct (memN (pid p) (f_contacted st)); auto. destruct (_ && _); auto.
+Qed.
+
+Lemma add_contacts_same cs : forall st, same_tasks (add_contacts st cs) st.
+Proof.
+  unfold add_contacts. induction cs as [|[c b] cs IH]; intro st; cbn [fold_left]; [repeat split|].
+  destruct (IH (add_active st c false b)) as (A1 & A2 & A3).
+  destruct (add_active_same st c false b) as (B1 & B2 & B3). cbn [fst snd] in *.
+  repeat split; congruence.
+Qed.
+
+Lemma jinv_schedule st p seed : jinv st -> jinv (schedule st p seed).
+Proof.
+  intros H q tid. unfold schedule. cbn [f_pending f_task f_running]. rewrite !assoc_opt_set.
+  destruct (N.eqb_spec q p) as [->|Ne].
+  - intro E. split; auto. apply addN_In. now left.
+  - intro E. destruct (H q tid E) as (H1 & H2). split; auto. apply addN_In. now right.
+Qed.
+
+Lemma round_loop_jinv l : forall idx st added outs st' added' outs',
+  round_loop l idx st added outs = (st', added', outs') -> jinv st -> jinv st'.
+Proof.
+  induction l as [|p l IH]; intros idx st added outs st' added' outs' Hr Hj; cbn [round_loop] in Hr.
+  - inversion Hr; subst; auto.
+  - destruct (memN (pid p) (f_contacted st)); [eapply IH; eauto|].
+    destruct (ALPHA <=? length (f_running st)); [inversion Hr; subst; auto|].
+    destruct (K + length (f_running st) <? idx); [inversion Hr; subst; auto|].
+    destruct (self_id p); [eapply IH; eauto|].
+    destruct (self_addr p); [eapply IH; eauto|].
+    eapply IH; eauto. now apply jinv_schedule.
+Qed.
+
+Lemma put_result_same prm st good fin st' outs : put_result prm st good fin = (st', outs) -> same_tasks st' st.
+Proof.
+  unfold put_result. cbv zeta. intro H. inversion H; subst. destruct (is_nil _); repeat split.
+Qed.
+
+Lemma search_round_jinv prm st good st' outs : search_round prm st good = (st', outs) -> jinv st -> jinv st'.
+Proof.
+  unfold search_round. intros H Hj.
+  destruct (round_loop (f_active st) 0 st 0 []) as [[st1 added] outs1] eqn:Er.
+  pose proof (round_loop_jinv _ _ _ _ _ _ _ _ Er Hj) as H1.
+  destruct (Nat.eqb added 0 && is_nil (f_running st1)); [|inversion H; subst; auto].
+  destruct (exhausted prm st1 good) as [st2 o2] eqn:Ee. inversion H; subst; clear H.
+  unfold exhausted in Ee. destruct (fp_kind prm).
+  - eapply jinv_same; [eapply put_result_same; eauto|auto].
+  - inversion Ee; subst; auto.
+Qed.
+
+Lemma jinv_done prm st p tid : fp_stalepop prm = false -> ev_wf st (EDone p tid []) -> jinv st ->
+  jinv (done_state prm st p tid).
+Proof.
+  intros Hs Hwf Hj. unfold done_state. cbv zeta. rewrite Hs, orb_false_r.
+  destruct (assoc_opt p (f_task st)) as [t|] eqn:Et; [|auto].
+  destruct (Nat.eqb_spec t tid) as [->|Ne]; [|auto].
+  intros q tq E. unfold set_tasks, set_on_running in *. cbn [f_pending f_task f_running] in *.
+  destruct (Hj q tq E) as (H1 & H2). rewrite assoc_opt_del.
+  destruct (N.eqb_spec q p) as [->|Nq].
+  - exfalso. cbn [ev_wf] in Hwf. rewrite Et in H1. inversion H1; subst. contradiction.
+  - split; auto. apply removeN_In_iff. auto.
+Qed.
+
+Lemma jinv_settle st ev : jinv st -> jinv (settle_pending st ev).
+Proof.
+  intro H. destruct ev; cbn [settle_pending]; auto; intros q tq E; unfold set_tasks in *;
+    cbn [f_pending f_task f_running] in *; rewrite assoc_opt_del in E;
+    match type of E with (if ?c then _ else _) = _ => destruct c; [discriminate|auto] end.
+Qed.
+
+Lemma jinv_empty st : f_pending st = [] -> jinv st.
+Proof. intros E p tid H. rewrite E in H. discriminate. Qed.
+
+Lemma seeds_fold_jinv sl : forall st outs st' outs',
+  fold_left (fun so p =>
+        if has_id p then (add_active (fst so) p true false, snd so)
+        else (schedule (fst so) (pid p) true, snd so ++ [OSched (pid p)])) sl (st, outs) = (st', outs') ->
+  jinv st -> jinv st'.
+Proof.
+  induction sl as [|p sl IH]; intros st outs st' outs' H Hj; cbn [fold_left] in H.
+  - inversion H; subst; auto.
+  - cbn [fst snd] in H. destruct (has_id p).
+    + eapply IH; eauto. eapply jinv_same; [apply add_active_same|auto].
+    + eapply IH; eauto. now apply jinv_schedule.
+Qed.
+
+Theorem fstep_jinv prm st ev st' outs tag : fp_stalepop prm = false ->
+  fstep prm st ev = (st', outs, tag) -> ev_wf st ev -> jinv st -> jinv st'.
+Proof.
+  intros Hs H Hwf Hj. apply fstep_unfold in H. destruct H as (s1 & H & ->). apply jinv_settle.
+  destruct ev; cbn [fstep_core] in H.
+  - match type of H with (let '(_, _) := ?f in _) = _ => destruct f as [s2 o1] eqn:Ef end.
+    inversion H; subst. eapply seeds_fold_jinv; eauto.
+  - destruct (search_round prm _ good) as [s2 o1] eqn:Es. inversion H; subst.
+    eapply search_round_jinv; eauto.
+  - assert (Hd : jinv (done_state prm st p tid)) by (apply jinv_done; auto).
+    destruct (f_on st).
+    + destruct (search_round prm _ good) as [s2 o1] eqn:Es. inversion H; subst. eapply search_round_jinv; eauto.
+    + inversion H; subst; auto.
+  - inversion H; subst. unfold reset_closest, set_active. intros q tq E. apply (Hj q tq E).
+  - inversion H; subst; auto.
+  - unfold aclose in H. inversion H; subst. apply jinv_empty. reflexivity.
+  - assert (Hc : jinv (add_contacts (add_active st p false selfbad) contacts)).
+    { eapply jinv_same; [apply add_contacts_same|]. eapply jinv_same; [apply add_active_same|auto]. }
+    destruct checked; [|inversion H; subst; auto].
+    destruct (found_key && negb (fp_key_is_self prm)); [|inversion H; subst; auto].
+    destruct (put_result prm _ good true) as [s2 o1] eqn:Ep. inversion H; subst.
+    eapply jinv_same; [eapply put_result_same; eauto|auto].
+  - destruct (if is_nil raw then (DOk, []) else scan_values raw []) as [verdict items].
+    match type of H with context [if negb (is_nil items) then ?a else st] =>
+      set (st1 := if negb (is_nil items) then a else st) in H end.
+    assert (H1 : jinv st1).
+    { subst st1. destruct (negb (is_nil items)); auto.
+      destruct (page_step eqc (fp_cap prm) _ items pages) as [nxt again].
+      intros q tq E. apply (Hj q tq E). }
+    assert (H2 : jinv (add_contacts (add_active st1 p false selfbad) contacts)).
+    { eapply jinv_same; [apply add_contacts_same|]. eapply jinv_same; [apply add_active_same|auto]. }
+    destruct verdict.
+    + inversion H; subst; auto.
+    + destruct checked; [|inversion H; subst; auto].
+      destruct (negb (is_nil items)); [|inversion H; subst; auto].
+      destruct (yield_new eqc _ items) as [seen fresh]. inversion H; subst.
+      intros q tq E. apply (H2 q tq E).
+    + destruct checked; [|inversion H; subst; auto].
+      destruct (negb (is_nil items)); [|inversion H; subst; auto].
+      destruct (yield_new eqc _ items) as [seen fresh]. inversion H; subst.
+      intros q tq E. apply (H2 q tq E).
+  - unfold aclose in H. inversion H; subst. apply jinv_empty. reflexivity.
+Qed.
+
+(* every done-callback comes after its task's result *)
+Fixpoint run_wf (prm : fparams) (st : fstate) (evs : list fev) : Prop :=
+  match evs with
+  | [] => True
+  | e :: r => ev_wf st e /\ run_wf prm (fst (fst (fstep prm st e))) r
+  end.
+
+Lemma frun_jinv prm evs : fp_stalepop prm = false -> forall st, run_wf prm st evs -> jinv st ->
+  jinv (fst (frun prm st evs)).
+Proof.
+  intro Hs. induction evs as [|e evs IH]; intros st Hwf Hj; cbn [frun]; auto.
+  cbn [run_wf] in Hwf. destruct Hwf as (Hw & Hr).
+  destruct (fstep prm st e) as [[st1 o1] t1] eqn:Es. cbn [fst] in Hr.
+  specialize (IH st1 Hr (fstep_jinv prm _ _ _ _ _ Hs Es Hw Hj)).
+  destruct (frun prm st1 evs) as [stf rest]. exact IH.
+Qed.
+
+(* with the repaired callback, whenever no probe is tracked as running, no probe result is pending:
+   the end of the search is never declared while a page is still on its way *)
+Theorem exhaustion_sound prm evs : fp_stalepop prm = false -> run_wf prm f_init evs ->
+  f_running (final_state prm evs) = [] -> f_pending (final_state prm evs) = [].
+Proof.
+  intros Hs Hwf Hr. pose proof (frun_jinv prm evs Hs f_init Hwf (jinv_empty f_init eq_refl)) as Hj.
+  unfold final_state in *. apply assoc_opt_nil. intro q.
+  destruct (assoc_opt q (f_pending (fst (frun prm f_init evs)))) as [t|] eqn:E; auto.
+  destruct (Hj q t E) as (_ & Hin). rewrite Hr in Hin. destruct Hin.
+Qed.
+
+(* the callback before the fix: Q (closer, nothing stored) and P (a full page, more announced) answer in the same
+   loop iteration; Q's callback re-schedules P, P's stale callback removes the new entry and the end is declared
+   while P's next page is pending *)
+Definition race_q : peer := {| pid := 1; pdist := 3; has_id := true; self_id := false; self_addr := false |}.
+Definition race_p : peer := {| pid := 2; pdist := 9; has_id := true; self_id := false; self_addr := false |}.
+Definition race_evs : list fev :=
+  [EInit [race_q; race_p]; EStart [];
+   EValueReply race_q false [] 0 [] true;
+   EValueReply race_p false (map (fun t => VB (mk_compact (N.of_nat t))) (seq 0 8)) 3 [] true;
+   EDone 1 0 []; EDone 2 1 []].
+Definition prm_race (stale : bool) : fparams :=
+  {| fp_kind := KValue; fp_key_is_self := false; fp_maxres := 8; fp_cap := real_cap; fp_stalepop := stale |}.
+
+Lemma stale_pop_refuted :
+  run_wf (prm_race true) f_init race_evs /\
+  f_running (final_state (prm_race true) race_evs) = [] /\
+  f_pending (final_state (prm_race true) race_evs) = [(2%N, 2)] /\
+  In OFinish (fst (last (snd (frun (prm_race true) f_init race_evs)) ([], 0%N))) /\
+  f_running (final_state (prm_race false) race_evs) = [2%N] /\
+  ~ In OFinish (fst (last (snd (frun (prm_race false) f_init race_evs)) ([], 0%N))).
+Proof.
+  vm_compute. repeat split; try (intros [H|[]]; discriminate); try congruence; auto.
+Qed.
+
+(* a peer whose store request is accepted has a compact address every searcher decodes as well-formed *)
+Lemma nthN_app_l (a b : bytes) i : i < length a -> nthN (a ++ b) i = nthN a i.
+Proof. intro H. unfold nthN. now rewrite nth_error_app1. Qed.
+
+Theorem stored_peer_compact_valid (ip id : bytes) (port : N) :
+  length ip = 4 -> length id = 48 ->
+  public_ip (nthN ip 0) (nthN ip 1) (nthN ip 2) (nthN ip 3) = true -> store_port_ok port = true ->
+  valid_compact (mk_compact_addr ip port id) = true.
+Proof.
+  intros Hip Hid Hpub Hp. unfold store_port_ok in Hp. apply andb_prop in Hp. destruct Hp as (H1 & H2).
+  apply N.leb_le in H1, H2.
+  unfold valid_compact, decode_compact, mk_compact_addr.
+  assert (Hlen : length (ip ++ be_encode 2 port ++ id) = 54) by (rewrite !app_length, be_encode_length; lia).
+  rewrite Hlen. change (54 <? 4) with false. cbv iota.
+  rewrite (skipn_app_exact' 4 ip) by auto.
+  rewrite (firstn_app_exact' 2 (be_encode 2 port) id) by (now rewrite be_encode_length).
+  rewrite be_decode_encode by (change (256 ^ N.of_nat 2)%N with 65536%N; lia).
+  assert (E0 : (port =? 0)%N = false) by (apply N.eqb_neq; lia). rewrite E0.
+  replace (skipn 6 (ip ++ be_encode 2 port ++ id)) with id.
+  2:{ rewrite app_assoc. symmetry. apply skipn_app_exact'. rewrite app_length, be_encode_length. lia. }
+  rewrite Hid. change (Nat.eqb 48 48) with true. cbn [negb].
+  assert (E1 : (port <? 1024)%N = false) by (apply N.ltb_ge; lia). rewrite E1.
+  rewrite !nthN_app_l by lia. rewrite Hpub. reflexivity.
+Qed.
+
+(* ping queue *)
+Lemma pq_enqueue_get q p a x :
+  pq_get (pq_enqueue q p a) x =
+  if N.eqb x p then Some (match pq_get q p with Some t => Z.min t a | None => a end) else pq_get q x.
+Proof.
+  induction q as [|[k t] q IH]; simpl.
+  - rewrite (N.eqb_sym p x). destruct (N.eqb_spec x p); auto.
+  - destruct (N.eqb_spec k p) as [->|Ne]; simpl.
+    + rewrite (N.eqb_sym p x). destruct (N.eqb_spec x p) as [E|Nx]; auto.
+      f_equal. destruct (Z.ltb_spec a t); lia.
+    + destruct (N.eqb_spec k x) as [->|Nk].
+      * destruct (N.eqb_spec x p); [congruence|auto].
+      * rewrite IH. destruct (N.eqb_spec x p); auto.
+Qed.
+
+(* once a contact is queued for time a, no sequence of further enqueues (of anybody) moves its ping later *)
+Theorem pq_never_postponed (ops : list (N * Z)) : forall q p a,
+  pq_get q p = Some a ->
+  exists t, pq_get (fold_left (fun s o => pq_enqueue s (fst o) (snd o)) ops q) p = Some t /\ (t <= a)%Z.
+Proof.
+  induction ops as [|[k b] ops IH]; intros q p a H; cbn [fold_left fst snd].
+  - exists a. split; auto. lia.
+  - assert (H' : exists a', pq_get (pq_enqueue q k b) p = Some a' /\ (a' <= a)%Z).
+    { rewrite pq_enqueue_get. destruct (N.eqb_spec p k) as [->|Ne].
+      - rewrite H. eexists. split; eauto. lia.
+      - exists a. split; auto. lia. }
+    destruct H' as (a' & H1 & H2). destruct (IH _ _ _ H1) as (t & T1 & T2). exists t. split; auto. lia.
 Qed.
